@@ -140,7 +140,7 @@ def main(tier, seed):
     wroot = os.path.join(bdir, "verif-work", "c17-%d" % os.getpid())
     shutil.rmtree(wroot, ignore_errors=True)
     os.makedirs(wroot)
-    nsch = 40 if tier == "quick" else 3000
+    nsch = 120 if tier == "quick" else 3000
     evals = 0
     oracle_fail = 0
     disagreements = 0
